@@ -1,6 +1,7 @@
 package iocloser
 
 import (
+	"github.com/aperturerobotics/util/verifhook"
 	"io"
 	"sync"
 )
@@ -22,6 +23,8 @@ func NewWriteCloser(wr io.Writer, close func() error) *WriteCloser {
 
 // Write writes data to the io.Writer.
 func (w *WriteCloser) Write(p []byte) (n int, err error) {
+	defer verifhook.Unlocked(w)
+	verifhook.Lock(w)
 	w.closeMtx.Lock()
 	defer w.closeMtx.Unlock()
 	if w.wr == nil {
@@ -33,11 +36,13 @@ func (w *WriteCloser) Write(p []byte) (n int, err error) {
 
 // Close closes the WriteCloser.
 func (w *WriteCloser) Close() error {
+	verifhook.Lock(w)
 	w.closeMtx.Lock()
 	closeFn := w.close
 	w.wr = nil
 	w.close = nil
 	w.closeMtx.Unlock()
+	verifhook.Unlocked(w)
 	if closeFn != nil {
 		return closeFn()
 	}
